@@ -19,7 +19,7 @@ OPS = [
     "add", "sub", "mul", "div", "pow", "min", "max", "radd", "rsub", "rmul", "rdiv", "add_num", "neg", "abs", "abs_m",
     "sign", "sum_to", "sum_over", "sum_nothing", "cumsum", "apply", "cast_to", "cast_same", "shares", "getitem",
     "getitem", "getitem_ellipsis", "getitem_bare", "copy", "full_like", "full", "from_superset", "constructor",
-    "to_df", "from_df", "split", "stack", "setitem_ndarray", "stock", "lifetime", "system", "dimset_ops", "plot",
+    "to_df", "from_df", "split", "stack", "setitem_ndarray", "setitem_array", "stock", "lifetime", "system", "dimset_ops", "plot",
 ]
 INDEPENDENT = {
     "add", "sub", "mul", "div", "pow", "min", "max", "radd", "rsub", "rmul", "rdiv", "add_num", "neg", "abs", "abs_m",
@@ -167,6 +167,22 @@ def run_case(desc):
         require(build.snapshot(t) == tsnap, "assigned-ndarray-not-copied", "target follows later changes of the ndarray")
         inputs.pop("nd")
         before.pop("nd")
+    elif op == "setitem_array":
+        # a declared array receives a FlodymArray source (same dims, possibly permuted); afterwards the two
+        # are independent in both directions
+        t = fd.FlodymArray(dims=x.dims.get_subset(tuple(reversed(xl))) if desc["flag"] else x.dims)
+        t[...] = x
+        tsnap = build.snapshot(t)
+        t2 = fd.FlodymArray(dims=x.dims)
+        t2[...] = x
+        t2.values[...] = SENT
+        k = same_snap(before, snap_all(inputs))
+        require(k is None, "assigned-array-aliases-source", f"writing into the target of target[...] = x changed '{k}'")
+        require(build.snapshot(t) == tsnap, "assigned-array-aliases-source", "two targets assigned from one source share memory")
+        xk = np.array(x.values, copy=True)
+        x.values[...] = SENT
+        require(build.snapshot(t) == tsnap, "assigned-array-aliases-source", "writing into the source changed the target")
+        x.values[...] = xk
     elif op == "stock":
         s = fd.SimpleFlowDrivenStock(dims=tds, inflow=inflow, outflow=outflow, name="s")
         d = fd.InflowDrivenDSM(dims=tds, inflow=inflow, lifetime_model=fd.NormalLifetime(dims=tds, mean=3.0, std=1.0))
